@@ -121,7 +121,7 @@ def rand_float_array(rng, shape, nan_p=0.0, inf_p=0.0, dup=True):
 # comparison
 # ---------------------------------------------------------------------------------------------
 
-def same_values(got, exp, exact, scale=1.0):
+def same_values(got, exp, exact, scale=1.0, rtol=1e-9):
     """Shape + values (exact for ints/bools, tolerance scaled by `scale` for floats, NaN == NaN)."""
     got = np.asarray(got)
     exp = np.asarray(exp)
@@ -131,8 +131,8 @@ def same_values(got, exp, exact, scale=1.0):
         return bool(np.array_equal(got, exp, equal_nan=got.dtype.kind in "fc" and exp.dtype.kind in "fc"))
     with warnings.catch_warnings():
         warnings.simplefilter("ignore")
-        tol = 1e-9 * max(1.0, float(scale))
-        return bool(np.allclose(got.astype(float), exp.astype(float), rtol=1e-9, atol=tol, equal_nan=True))
+        tol = rtol * max(1.0, float(scale))
+        return bool(np.allclose(got.astype(float), exp.astype(float), rtol=rtol, atol=tol, equal_nan=True))
 
 
 def run_both(f_impl, f_ref):
@@ -179,7 +179,12 @@ def joint_vs_solo(arrays, scheduler="sync"):
     import dask
     with warnings.catch_warnings():
         warnings.simplefilter("ignore")
-        joint = dask.compute(*arrays, scheduler=scheduler)
+        try:
+            joint = dask.compute(*arrays, scheduler=scheduler)
+        except Exception:   # noqa: BLE001 — a key collision can also make the merged graph fail outright
+            for x in arrays:
+                x.compute(scheduler=scheduler)      # a genuine error of one collection propagates
+            return list(range(len(arrays)))
         bad = []
         for i, (x, j) in enumerate(zip(arrays, joint)):
             s = x.compute(scheduler=scheduler)
